@@ -538,6 +538,7 @@ class ktensor:
             permutation, (tuple, list, np.ndarray)
         ):
             if len(permutation) == self.ncomponents:
+                permutation = np.asarray(permutation)
                 self.weights = self.weights[permutation]
                 for i in range(self.ndims):
                     self.factor_matrices[i] = self.factor_matrices[i][:, permutation]
